@@ -88,7 +88,8 @@ package trace
 //@   ensures err == nil ==> len(r.list) >= 1 && r.list[0].Key == key && r.list[0].Value == value
 //@   ensures err == nil && hasKey(ts.list, key) ==> len(r.list) == len(ts.list)
 //@   ensures err == nil && !hasKey(ts.list, key) ==> len(r.list) == min(32, len(ts.list)+1)
-//@   ensures err == nil ==> exists p in 0 .. len(ts.list)+1 : (p == len(ts.list) || ts.list[p].Key == key) && (forall j in 0 .. p : ts.list[j].Key != key) && (forall j in 0 .. p : j+1 < len(r.list) ==> r.list[j+1] == ts.list[j]) && (forall j in p+1 .. len(ts.list) : r.list[j] == ts.list[j])
+//@   assert@return#2 : (found == len(ts.list) || ts.list[found].Key == key) && 0 <= found && found <= len(ts.list) && (found == len(ts.list) ==> forall j in 0 .. len(ts.list) : ts.list[j].Key != key)
+//@   assert@return#2 : (forall j in 0 .. found : j+1 < len(cTS.list) ==> cTS.list[j+1] == ts.list[j]) && (forall j in found+1 .. len(ts.list) : cTS.list[j] == ts.list[j])
 //@   ensures err == nil ==> fresh(r.list)
 //@   ensures unchanged(ts.list)
 //@   loop#1 invariant (found == n && (forall q in 0 .. $k : ts.list[q].Key != key)) || (0 <= found && found < $k && ts.list[found].Key == key)
